@@ -5,12 +5,17 @@
 package h
 
 import (
+	"bufio"
 	"context"
 	"encoding/binary"
+	"encoding/json"
 	"fmt"
 	"io"
 	"net"
+	"os"
+	"os/exec"
 	"regexp"
+	"runtime/debug"
 	"strings"
 	"sync"
 	"time"
@@ -361,4 +366,263 @@ func (s *RecvSealer) Seal(c RecvRefChunk) ([]byte, error) {
 func RecvSecureConfig(uri string, mode ua.MessageSecurityMode, kp *KeyPair, remoteCert []byte) *uasc.Config {
 	return &uasc.Config{SecurityPolicyURI: uri, SecurityMode: mode, LocalKey: kp.Key, Certificate: kp.CertDER,
 		RemoteCertificate: remoteCert, Lifetime: 3600000, RequestTimeout: 5 * time.Second}
+}
+
+// ---------------------------------------------------------------- worker process
+
+// RecvJob asks the worker to feed frames to a secure channel of the real code
+// and to report what Receive returns.  The worker is a child process with an
+// address-space limit: a fatal error of the real code (out of memory, stack
+// overflow) kills the child, not the runner, and is reported as "crash".
+type RecvJob struct {
+	Setup       string   `json:"setup"` // "open": channel already open (VerifOpenChannel); "fresh-server" / "fresh-client": new channel, nothing opened
+	Server      bool     `json:"server"`
+	URI         string   `json:"uri"`
+	Mode        int      `json:"mode"`
+	LocalNonce  []byte   `json:"ln"`
+	RemoteNonce []byte   `json:"rn"`
+	KeyDir      string   `json:"keydir"`
+	Ack         []uint32 `json:"ack"` // rcvBuf sndBuf maxChunks maxMsg
+	ChannelID   uint32   `json:"ch"`
+	TokenID     uint32   `json:"tok"`
+	Frames      [][]byte `json:"frames"`
+	DeadlineMs  int      `json:"deadline_ms"`
+	MaxResults  int      `json:"max_results"`
+}
+
+type RecvJobResult struct {
+	Outcome string   `json:"outcome"` // ok | timeout | panic: … | crash: … | setup: …
+	Results []string `json:"results"`
+	Entries int      `json:"entries"`
+	Chunks  int      `json:"chunks"`
+	Bytes   int      `json:"bytes"`
+}
+
+const recvWorkerEnv = "VERIF_RECV_WORKER"
+
+// RecvWorkerMain turns the process into a worker when it was started as one.
+// Every runner that uses StartRecvWorker calls it first thing in main.
+func RecvWorkerMain() {
+	if os.Getenv(recvWorkerEnv) == "" {
+		return
+	}
+	debug.SetMaxStack(256 << 20)
+	in := bufio.NewReaderSize(os.Stdin, 1<<20)
+	out := bufio.NewWriter(os.Stdout)
+	for {
+		line, err := in.ReadBytes('\n')
+		if len(line) == 0 && err != nil {
+			os.Exit(0)
+		}
+		var job RecvJob
+		res := RecvJobResult{}
+		if e := json.Unmarshal(line, &job); e != nil {
+			res.Outcome = "setup: bad job " + e.Error()
+		} else {
+			res = recvDoJob(&job)
+		}
+		b, _ := json.Marshal(res)
+		out.Write(b)
+		out.WriteByte('\n')
+		out.Flush()
+	}
+}
+
+func recvDoJob(job *RecvJob) (res RecvJobResult) {
+	defer func() {
+		if e := recover(); e != nil {
+			res.Outcome = "panic: " + fmt.Sprint(e)
+		}
+	}()
+	var cfg *uasc.Config
+	if job.URI == "" || job.URI == ua.SecurityPolicyURINone {
+		cfg = RecvNoneConfig()
+	} else {
+		ka, err := LoadKey(job.KeyDir, 2048, "a")
+		if err != nil {
+			return RecvJobResult{Outcome: "setup: " + err.Error()}
+		}
+		kb, err := LoadKey(job.KeyDir, 2048, "b")
+		if err != nil {
+			return RecvJobResult{Outcome: "setup: " + err.Error()}
+		}
+		cfg = RecvSecureConfig(job.URI, ua.MessageSecurityMode(job.Mode), ka, kb.CertDER)
+	}
+	ack := RecvAck(job.Ack[0], job.Ack[1], job.Ack[2], job.Ack[3])
+	var rc *RecvChannel
+	var err error
+	switch job.Setup {
+	case "", "open":
+		rc, err = OpenRecvChannel(cfg, ack, job.Server, job.ChannelID, job.TokenID, 1, job.LocalNonce, job.RemoteNonce)
+	default:
+		rc, err = recvFreshChannel(cfg, ack, job.Setup == "fresh-server", job.ChannelID, job.TokenID)
+	}
+	if err != nil {
+		return RecvJobResult{Outcome: "setup: " + err.Error()}
+	}
+	defer rc.Close()
+	werr := make(chan error, 1)
+	go func() { werr <- RecvWriteAll(rc.Peer, job.Frames) }()
+	dl := time.Duration(job.DeadlineMs) * time.Millisecond
+	if dl == 0 {
+		dl = 20 * time.Second
+	}
+	max := job.MaxResults
+	if max == 0 {
+		max = len(job.Frames) + 2
+	}
+	out, ok := RecvDrain(rc, max, dl)
+	res.Results = out
+	res.Outcome = "ok"
+	if !ok {
+		res.Outcome = "timeout"
+	}
+	res.Entries, res.Chunks, res.Bytes = rc.SC.VerifChunkTable()
+	return res
+}
+
+// recvFreshChannel builds a channel on which nothing has been opened yet.
+func recvFreshChannel(cfg *uasc.Config, ack *uacp.Acknowledge, server bool, channelID, tokenID uint32) (*RecvChannel, error) {
+	a, b, err := RecvTCPPair()
+	if err != nil {
+		return nil, err
+	}
+	conn, err := uacp.NewConn(a, ack)
+	if err != nil {
+		return nil, err
+	}
+	errch := make(chan error, 16)
+	var sc *uasc.SecureChannel
+	if server {
+		sc, err = uasc.NewServerSecureChannel("opc.tcp://verif", conn, cfg, errch, channelID, 0, tokenID)
+	} else {
+		sc, err = uasc.NewSecureChannel("opc.tcp://verif", conn, cfg, errch)
+	}
+	if err != nil {
+		a.Close()
+		b.Close()
+		return nil, err
+	}
+	return &RecvChannel{SC: sc, Conn: conn, Peer: b, ErrCh: errch}, nil
+}
+
+// RecvWorker is the parent's handle of the worker process.
+type RecvWorker struct {
+	memKB   int
+	cmd     *exec.Cmd
+	in      io.WriteCloser
+	out     *bufio.Reader
+	stderr  *recvTail
+	Crashes int
+}
+
+type recvTail struct {
+	mu sync.Mutex
+	b  []byte
+}
+
+func (t *recvTail) Write(p []byte) (int, error) {
+	t.mu.Lock()
+	t.b = append(t.b, p...)
+	if len(t.b) > 4096 {
+		t.b = t.b[len(t.b)-4096:]
+	}
+	t.mu.Unlock()
+	return len(p), nil
+}
+
+func (t *recvTail) head() string {
+	t.mu.Lock()
+	defer t.mu.Unlock()
+	s := string(t.b)
+	if i := strings.Index(s, "\n\n"); i > 0 {
+		s = s[:i]
+	}
+	if len(s) > 300 {
+		s = s[:300]
+	}
+	return strings.ReplaceAll(s, "\n", " | ")
+}
+
+// StartRecvWorker: memKB is the address-space limit of the child (ulimit -v).
+func StartRecvWorker(memKB int) *RecvWorker { return &RecvWorker{memKB: memKB} }
+
+func (w *RecvWorker) start() error {
+	self, err := os.Executable()
+	if err != nil {
+		return err
+	}
+	cmd := exec.Command("/bin/sh", "-c", fmt.Sprintf("ulimit -v %d; exec \"$0\"", w.memKB), self)
+	cmd.Env = append(os.Environ(), recvWorkerEnv+"=1", "GOGC=50")
+	w.stderr = &recvTail{}
+	cmd.Stderr = w.stderr
+	if w.in, err = cmd.StdinPipe(); err != nil {
+		return err
+	}
+	rd, err := cmd.StdoutPipe()
+	if err != nil {
+		return err
+	}
+	w.out = bufio.NewReaderSize(rd, 1<<20)
+	if err := cmd.Start(); err != nil {
+		return err
+	}
+	w.cmd = cmd
+	return nil
+}
+
+// Do runs one job; a dead child is reported as "crash: <first lines of its
+// stderr>" and replaced on the next call.
+func (w *RecvWorker) Do(job *RecvJob) RecvJobResult {
+	if w.cmd == nil {
+		if err := w.start(); err != nil {
+			return RecvJobResult{Outcome: "setup: worker does not start: " + err.Error()}
+		}
+	}
+	b, _ := json.Marshal(job)
+	w.in.Write(append(b, '\n'))
+	type rl struct {
+		line []byte
+		err  error
+	}
+	ch := make(chan rl, 1)
+	go func() {
+		l, err := w.out.ReadBytes('\n')
+		ch <- rl{l, err}
+	}()
+	limit := time.Duration(job.DeadlineMs)*time.Millisecond + 30*time.Second
+	var r rl
+	select {
+	case r = <-ch:
+	case <-time.After(limit):
+		w.kill()
+		return RecvJobResult{Outcome: "timeout"}
+	}
+	if r.err != nil || len(r.line) == 0 {
+		w.cmd.Wait()
+		msg := w.stderr.head()
+		w.cmd = nil
+		w.Crashes++
+		return RecvJobResult{Outcome: "crash: " + msg}
+	}
+	var res RecvJobResult
+	if err := json.Unmarshal(r.line, &res); err != nil {
+		return RecvJobResult{Outcome: "setup: bad worker answer"}
+	}
+	return res
+}
+
+func (w *RecvWorker) kill() {
+	if w.cmd != nil {
+		w.cmd.Process.Kill()
+		w.cmd.Wait()
+		w.cmd = nil
+	}
+}
+
+func (w *RecvWorker) Close() {
+	if w.cmd != nil {
+		w.in.Close()
+		w.kill()
+	}
 }
